@@ -296,15 +296,15 @@ LoadBuild(rows, g2) ==
 (* single-valued end a second partner the call is outside the domain of C03.     *)
 RowAsRef(c, i, row) == [c |-> c, v |-> [n \in Rng(AttrNames(c)) |-> IF n \in DOMAIN row.v THEN row.v[n] ELSE "unset"]]
 Partners(a, row) == SelectSeq(pool[Tgt(a)], LAMBDA t : Matches(a, row, RowOfInst(Tgt(a), t)))
-NewRow(row, g2) ==
+Over(row) == \E a \in {b \in AIdx : Src(b) = row.c} :
+                \/ (Len(Partners(a, row)) > 1 /\ ~Assocs[a].tmany)
+                \/ \E k \in DOMAIN Partners(a, row) : fwd[a][Partners(a, row)[k]] # <<>> /\ ~Assocs[a].smany
+NewRowCore(row, g2, used2, pk2) ==
     LET c == row.c
         i == born[c] + 1
         mine == {a \in AIdx : Src(a) = c}
-        over == \E a \in mine : \/ (Len(Partners(a, row)) > 1 /\ ~Assocs[a].tmany)
-                                 \/ \E k \in DOMAIN Partners(a, row) :
-                                       fwd[a][Partners(a, row)[k]] # <<>> /\ ~Assocs[a].smany
     IN /\ born[c] < MaxI
-       /\ IF over THEN res' = "OutOfDomain" /\ UNCHANGED mvars
+       /\ IF Over(row) THEN res' = "OutOfDomain" /\ UNCHANGED mvars
           ELSE /\ born' = [born EXCEPT ![c] = i]
                /\ pool' = [pool EXCEPT ![c] = Append(@, i)]
                /\ val' = [val EXCEPT ![c][i] = [n \in Rng(NonRef(c)) |-> row.v[n]]]
@@ -312,8 +312,30 @@ NewRow(row, g2) ==
                              IF a \in mine /\ InSeq(t, Partners(a, row)) THEN Append(fwd[a][t], i) ELSE fwd[a][t]]]
                /\ bwd' = [a \in AIdx |-> [s \in Ord |->
                              IF a \in mine /\ s = i THEN Partners(a, row) ELSE bwd[a][s]]]
-               /\ gen' = g2 /\ UNCHANGED <<used, pk>>
+               /\ gen' = g2 /\ used' = used2 /\ pk' = pk2
                /\ res' = "none"
+NewRow(row, g2) == NewRowCore(row, g2, used, pk)
+
+(* The general creation call (C19 with referential arguments): keyword over        *)
+(* positional (by position in the whole attribute list, referential attributes     *)
+(* included) over the default of the type; a referential attribute that is not      *)
+(* supplied is unset.  Without referential values this is NewIds.                   *)
+CallRow(c, pos, kw, ids) ==
+    LET names == AttrNames(c)
+        slots == IdSlots(c)
+    IN [c |-> c, v |-> [n \in Rng(names) |->
+            IF n \in DOMAIN kw THEN kw[n]
+            ELSE IF Index(names, n) <= Len(pos) THEN pos[Index(names, n)]
+            ELSE IF n \in RefAttrs(c) THEN "unset"
+            ELSE IF AttrType(c, n) = "UNIQUE_ID" THEN ids[Index(slots, n)]
+            ELSE Default(AttrType(c, n))]]
+NewCall(c, pos, kw, ids, g2) ==
+    LET slots == IdSlots(c)
+        shown == {ids[k] : k \in {j \in DOMAIN slots : ~Overridden(c, slots[j], pos, kw)}}
+    IN /\ FirstUnknown(c) = 0
+       /\ NewRowCore(CallRow(c, pos, kw, ids), g2, used \cup shown, IF Len(slots) > 0 THEN "" ELSE pk)
+NewC(c, pos, kw) ==
+    NewCall(c, pos, kw, [k \in 1..Len(IdSlots(c)) |-> GenId(gen + k)], gen + Len(IdSlots(c)))
 
 \* what serialisation writes for a value: an unset value becomes the null value of
 \* its type, a real its six-decimal form
@@ -379,17 +401,22 @@ Spec == Init /\ [][Next]_vars
 AllVals == UNION {Vals[ty] : ty \in DOMAIN Vals}
 TypedVals(ty) == IF ty \in DOMAIN Vals THEN Vals[ty] ELSE {}
 \* positional arguments stop before the first referential attribute
+\* ("newref" in the alphabet: positional and keyword arguments run through the referential attributes too)
 MaxPos(c) == LET r == {j \in DOMAIN AttrNames(c) : AttrNames(c)[j] \in RefAttrs(c)}
-             IN IF r = {} THEN Len(AttrNames(c)) ELSE Min(r) - 1
+             IN IF r = {} \/ "newref" \in Alpha THEN Len(AttrNames(c)) ELSE Min(r) - 1
+KwNames(c) == IF "newref" \in Alpha THEN Rng(AttrNames(c)) ELSE Rng(NonRef(c))
 PosOK(c, pos) == Len(pos) <= MaxPos(c) /\ \A j \in DOMAIN pos : pos[j] \in TypedVals(AttrType(c, AttrNames(c)[j]))
-KwOK(c, kw) == DOMAIN kw \subseteq Rng(NonRef(c)) /\ \A n \in DOMAIN kw : kw[n] \in TypedVals(AttrType(c, n))
+KwOK(c, kw) == DOMAIN kw \subseteq KwNames(c) /\ \A n \in DOMAIN kw : kw[n] \in TypedVals(AttrType(c, n))
 MaxPosAll == CHOOSE m \in 0..20 : (\E c \in ClassSet : MaxPos(c) = m) /\ \A c \in ClassSet : MaxPos(c) <= m
 AllNames == UNION {Rng(AttrNames(c)) : c \in ClassSet}
-PosSetC(c) == {p \in UNION {[1..k -> AllVals] : k \in 0..MaxPos(c)} : PosOK(c, p)}
-KwSetC(c) == {f \in UNION {[S -> AllVals] : S \in SUBSET Rng(NonRef(c))} : KwOK(c, f)}
+\* (constant-level functions: TLC evaluates them once)
+PosSets == [c \in ClassSet |-> UNION {{p \in [1..k -> AllVals] : PosOK(c, p)} : k \in 0..MaxPos(c)}]
+KwSets == [c \in ClassSet |-> UNION {{f \in [S -> AllVals] : KwOK(c, f)} : S \in SUBSET KwNames(c)}]
+PosSetC(c) == PosSets[c]
+KwSetC(c) == KwSets[c]
 
 VNew(c, pos, kw) == "newv" \in Alpha /\ born[c] < Bound[c] /\ FirstUnknown(c) = 0 /\ PosOK(c, pos) /\ KwOK(c, kw)
-                    /\ New(c, pos, kw)
+                    /\ NewC(c, pos, kw) /\ res' # "OutOfDomain"
 \* (persisting renumbers the instances and lets creation start over: bound the ids handed out)
 VNewD(c) == "new" \in Alpha /\ ("save" \in Alpha => gen < 2 * MaxI) /\ HNew(c)
 VNewUnknown(c) == "unknown" \in Alpha /\ born[c] < Bound[c] /\ NewUnknown(c) /\ UNCHANGED mvars
